@@ -82,6 +82,9 @@ Proof.
   rewrite exec_S; rewrite IH; auto.
 Qed.
 
+Lemma leb_true_nat a b : (a <= b)%nat -> (a <=? b)%nat = true.
+Proof. apply Nat.leb_le. Qed.
+
 (** * weakest preconditions *)
 Definition wp (p : prog) (s : stmt) (e : env) (Q : outcome -> Prop) : Prop :=
   exists f, exec f p s e <> OOutOfFuel /\ Q (exec f p s e).
@@ -143,6 +146,26 @@ Lemma wp_oracle p ls fn args e (Q : outcome -> Prop) vs rets :
   wp p (SOracle ls fn args) e Q.
 Proof.
   intros E Ho H. apply (wp_step _ _ _ _ O); cbn [exec_step]; rewrite E, Ho; [apply assign_all_not_oof|exact H].
+Qed.
+
+Lemma wp_copy_at_str p dst off src e (Q : outcome -> Prop) o d s :
+  eval e off = EV (VInt o) -> eval e src = EV (VStr s) -> get dst e = VStr d ->
+  in_bounds_incl o (length d) = true ->
+  Q (ONormal (upd dst (VStr (firstn (Z.to_nat o) d ++ copy_into (skipn (Z.to_nat o) d) s)) e)) ->
+  wp p (SCopyAt dst off src) e Q.
+Proof.
+  intros E1 E2 G B H. apply (wp_step _ _ _ _ O); cbn [exec_step]; rewrite E1, E2, G, B; [discriminate|exact H].
+Qed.
+
+Lemma wp_put_be p w dst off v e (Q : outcome -> Prop) o z d :
+  eval e off = EV (VInt o) -> eval e v = EV (VInt z) -> get dst e = VStr d ->
+  in_bounds_incl o (length d) = true -> (w <= length d - Z.to_nat o)%nat ->
+  Q (ONormal (upd dst (VStr (firstn (Z.to_nat o) d ++ be w (Z.to_N z) ++ skipn (Z.to_nat o + w) d)) e)) ->
+  wp p (SPutBe w dst off v) e Q.
+Proof.
+  intros E1 E2 G B L H. apply (wp_step _ _ _ _ O); cbn [exec_step]; rewrite E1, E2, G, B.
+  - rewrite (leb_true_nat _ _ L). discriminate.
+  - rewrite (leb_true_nat _ _ L). exact H.
 Qed.
 
 Lemma wp_seq p a b e (Q : outcome -> Prop) :
@@ -410,11 +433,14 @@ Lemma length_map_byte_val (l : bytes) : length (map byte_val l) = length l.
 Proof. apply map_length. Qed.
 
 Ltac lens := rewrite ?length_map_VStr, ?length_map_v_strs, ?length_map_v_nat, ?length_map_byte_val,
-                     ?app_length, ?skipn_length.
+                     ?app_length, ?skipn_length, ?repeat_length, ?be_length.
 Ltac side := cbn [length]; lens; lia.
 
 Lemma is_neg_false z : 0 <= z -> is_neg z = false.
 Proof. intros H. apply Z.ltb_ge. exact H. Qed.
+
+Lemma make_ok_true n c : 0 <= n <= c -> make_ok n c = true.
+Proof. intros H. unfold make_ok. apply andb_true_intro; split; apply Z.leb_le; lia. Qed.
 
 Lemma leb_true a b : (a <= b)%nat -> (a <=? b)%nat = true.
 Proof. apply Nat.leb_le. Qed.
@@ -435,6 +461,7 @@ Ltac norm1 :=
     | rewrite wrap_u64 by side
     | rewrite leb_true by (rewrite ?skipn_length; side)
     | rewrite is_neg_false by side
+    | rewrite make_ok_true by side
     | rewrite length_map_VStr | rewrite length_map_v_strs | rewrite length_map_v_nat
     | rewrite in_bounds_true by side
     | rewrite in_bounds_incl_true by side
@@ -479,6 +506,12 @@ Ltac stepn :=
   | |- wp _ (SReturn _) _ _ => eapply wp_return; [evn; reflexivity|ev]
   | |- wp _ (SIf _ _ _) _ _ => eapply wp_if; [evn; reflexivity|ev]
   | |- wp _ (SRange _ _ _ _ _) _ _ => eapply wp_range; [evn; reflexivity|ev; reflexivity|]
+  | |- wp _ (SPutBe _ _ _ _) _ _ =>
+      eapply wp_put_be; [evn; reflexivity|evn; reflexivity|ev; reflexivity
+                        |apply in_bounds_incl_true; side|side|ev]
+  | |- wp _ (SCopyAt _ _ _) _ _ =>
+      eapply wp_copy_at_str; [evn; reflexivity|evn; reflexivity|ev; reflexivity
+                             |apply in_bounds_incl_true; side|ev]
   | |- wp _ (SOracle _ _ _) _ _ =>
       eapply wp_oracle; [evn; reflexivity|cbn [p_oracle with_oracle]|ev; repeat (norm1; ev)]
   | |- wp _ (SCopy _ _) _ _ =>
@@ -627,6 +660,8 @@ Ltac is_simple s :=
   | SBreak _ => idtac
   | SContinue _ => idtac
   | SCopy _ _ => idtac
+  | SCopyAt _ _ _ => idtac
+  | SPutBe _ _ _ _ => idtac
   | SPanic => idtac
   end.
 Ltac stepn_simple :=
@@ -690,4 +725,27 @@ Proof.
   rewrite <- (exec_mono f1 (Nat.max f1 f2)) in H1 by (try lia; exact E1).
   rewrite <- (exec_mono f2 (Nat.max f1 f2)) in H2 by (try lia; exact E2).
   congruence.
+Qed.
+
+Lemma skipn_repeat {A} (x : A) n k : skipn n (repeat x (n + k)) = repeat x k.
+Proof. induction n as [|n IH]; [reflexivity|exact IH]. Qed.
+
+Lemma firstn_app_len {A} (P R : list A) n : length P = n -> firstn n (P ++ R) = P.
+Proof. intros <-. rewrite firstn_app, Nat.sub_diag, firstn_all. cbn. apply app_nil_r. Qed.
+
+Lemma skipn_app_len {A} (P R : list A) n : length P = n -> skipn n (P ++ R) = R.
+Proof. intros <-. rewrite skipn_app, Nat.sub_diag, skipn_all. reflexivity. Qed.
+
+Lemma copy_into_zeros (s : bytes) k : (length s <= k)%nat ->
+  copy_into (repeat 0%N k) s = s ++ repeat 0%N (k - length s).
+Proof.
+  intros H. unfold copy_into. rewrite repeat_length, firstn_all2 by lia.
+  replace k with (length s + (k - length s))%nat at 1 by lia. now rewrite skipn_repeat.
+Qed.
+
+Lemma skipn_1_skipn {A} (l : list A) : forall i, skipn 1 (skipn i l) = skipn (S i) l.
+Proof.
+  induction l as [|a l IH]; intros i.
+  - destruct i; reflexivity.
+  - destruct i as [|i]; [reflexivity|]. cbn [skipn]. apply IH.
 Qed.
